@@ -1,5 +1,8 @@
 // C10 harness: one case = one round over a shared pinset:
-//   alert  — a ping alert for <failed> is delivered to the real alertsHandler of every other member in turn
+//   alert  — a ping alert for <failed> is delivered to the real alertsHandler of every other member in turn.
+//            alert@<w>: the same handler has already seen an earlier alert about <failed> that could do nothing
+//            (pinset not served or empty at the time): w = m<ids> (the peerset was <ids> then), d (same peerset),
+//            es / ep (consensus State() / Peers() failed then), n (non-ping alerts only)
 //   remove — one member calls the real Cluster.PeerRemove(<failed>)
 //   sync   — every member runs the real Cluster.StateSync
 //
@@ -35,6 +38,7 @@ type actor struct {
 
 type round struct {
 	kind      string
+	warm      string // "" or the <w> of alert@<w>
 	members   []int
 	untrusted []int
 	actors    []actor
@@ -89,7 +93,11 @@ func (r *round) input() string {
 	if len(mt) > 0 {
 		mtk = strings.Join(mt, ",")
 	}
-	return fmt.Sprintf("C10 %s %s %s %s %s %s dm%d:%d/s%d %s %s", r.kind, strings.Join(ms, ","), ct,
+	kind := r.kind
+	if r.warm != "" {
+		kind += "@" + r.warm
+	}
+	return fmt.Sprintf("C10 %s %s %s %s %s %s dm%d:%d/s%d %s %s", kind, strings.Join(ms, ","), ct,
 		common.Ints(r.untrusted), at, f, r.defMin, r.defMax, b(r.desc), mtk, r.preTok)
 }
 
@@ -183,7 +191,34 @@ func (r *round) run() string {
 					}
 				}
 				pm := api.Metric{Name: "ping", Peer: common.PeerN(r.failed)}
-				if send(&api.Alert{Metric: pm, TriggeredAt: now}) {
+				sentinel := &api.Alert{Metric: api.Metric{Name: "sentinel", Peer: common.PeerN(r.failed)}, TriggeredAt: now}
+				alive := true
+				if r.warm != "" {
+					// an earlier alert about the same peer, at a time when nothing could be done
+					st, members := cons.St, cons.Members
+					cons.St = common.NewFakeConsensus().St
+					switch {
+					case r.warm[0] == 'm':
+						cons.Members = nil
+						for _, x := range strings.Split(r.warm[1:], ".") {
+							v, _ := strconv.Atoi(x)
+							cons.Members = append(cons.Members, common.PeerN(v))
+						}
+					case r.warm == "es":
+						cons.FailState = 1
+					case r.warm == "ep":
+						cons.FailPeers = 1
+					}
+					if r.warm == "n" {
+						alive = send(sentinel)
+					} else {
+						alive = send(&api.Alert{Metric: pm, TriggeredAt: now.Add(-time.Minute)})
+					}
+					// the sentinel is only consumed once the earlier alert has been fully handled
+					alive = alive && send(sentinel)
+					cons.St, cons.Members, cons.FailState, cons.FailPeers = st, members, 0, 0
+				}
+				if alive && send(&api.Alert{Metric: pm, TriggeredAt: now}) {
 					// a second, non-ping alert is only consumed once the first one has been fully handled
 					send(&api.Alert{Metric: api.Metric{Name: "sentinel", Peer: common.PeerN(r.failed)}, TriggeredAt: now})
 				}
@@ -368,6 +403,29 @@ func gen(r *common.Rng) *round {
 	}
 	rd.pre = storedForm(common.PinsetOf(strings.Join(toks, "|")))
 	rd.preTok = common.PinsetTok(rd.pre)
+	if rd.kind == "alert" && r.Chance(2, 5) {
+		switch r.Intn(6) {
+		case 0, 1, 2:
+			// another peerset at the time of the earlier alert: members left and/or joined since
+			var l []string
+			for i := 0; i < 9; i++ {
+				in := i < n
+				if r.Chance(1, 3) {
+					in = !in
+				}
+				if in || i == rd.failed {
+					l = append(l, strconv.Itoa(i))
+				}
+			}
+			rd.warm = "m" + strings.Join(l, ".")
+		case 3:
+			rd.warm = "d"
+		case 4:
+			rd.warm = []string{"es", "ep"}[r.Intn(2)]
+		default:
+			rd.warm = "n"
+		}
+	}
 	return rd
 }
 
@@ -377,6 +435,12 @@ func parse(line string) (*round, bool) {
 		return nil, false
 	}
 	rd := &round{kind: f[1], failed: -1}
+	if i := strings.Index(f[1], "@"); i >= 0 {
+		rd.kind, rd.warm = f[1][:i], f[1][i+1:]
+		if rd.kind != "alert" || rd.warm == "" {
+			return nil, false
+		}
+	}
 	for _, m := range strings.Split(f[2], ",") {
 		v, _ := strconv.Atoi(strings.SplitN(m, ":", 2)[0])
 		rd.members = append(rd.members, v)
